@@ -247,7 +247,7 @@ void run_book_op(World* w, const std::string& name, const std::string& args)
         }
         if (trunc >= 0 && size_t(trunc) < img.size()) img.resize(size_t(trunc));
         if (!bs.path.empty()) unlink(bs.path.c_str());
-        bs.path = g_book_dir + "/book_" + std::to_string(getpid()) + "_" + std::to_string(++bs.files) + ".bin";
+        bs.path = g_book_dir + "/Book_" + std::to_string(getpid()) + "_" + std::to_string(++bs.files) + ".BIN";  // mixed case on purpose
         bs.fault = kind;
         bs.loaded = false;
         g_plan = FilePlan();
